@@ -319,6 +319,10 @@ def _msg_history(a):
         out.append(_mstatus(lambda: _mstep(o, reserved, op)))
         out += _mview(o)
         _check_params(ctx)
+    again = _mview(_build(kind, fl, a[1:4], {}))
+    if again != out[:3]:
+        raise HarnessInvariant("building the same message again after the history gives %s, the first one started as %s: "
+                               "state is shared between objects" % (again, out[:3]))
     return out
 
 
@@ -793,17 +797,19 @@ def streams(tier, rng):
                 cases.append((1160, [[4, rng.randrange(2)]] + a + [[], []] + [[M_PACK], [M_PARSER, 0], [M_PACK]]))
     yield "coinciding_limits", "exact", cases
     # 8. live-object histories and two messages decoded in a row
-    cases = mhist_systematic(rng)
+    cases = mhist_systematic(rng) + mhist_systematic(rng)
+    if big:
+        cases += mhist_systematic(rng) + mhist_systematic(rng)
     for kind in MKINDS:
         for fl in (0, 1, 2):
-            for _ in range(60 if big else 14):
+            for _ in range(200 if big else 50):
                 cases.append(mhist_random(rng, kind, fl))
     yield "histories", "exact", cases
     cases = []
     kinds = [0, 2, 3, 4, 5, 6, 7, 8]
     for ka in kinds:
         for kb in kinds + [1]:
-            for _ in range(8 if big else 3):
+            for _ in range(20 if big else 6):
                 da, pa = built_octets(rng, ka, rng.random() < 0.2)
                 db, pb = built_octets(rng, kb, rng.random() < 0.2)
                 cases.append((1161, [da, db, [pa, pb if pb is not None else rng.randrange(8)]]))
@@ -854,7 +860,7 @@ def _mhist_oracle(a, ires):
                 _msg_history(a); why = "not reproducible"
             except Exception as e:
                 why = str(e)
-            return ("C18/%s.history/caller-object-modified" % name, why)
+            return ("C18/%s.history/caller-object-modified-or-shared-state" % name, why)
         return None
     body = ires[1:]
     if len(body) != 3 + 4 * len(ops):
